@@ -2,8 +2,8 @@ package e3
 
 import (
 	"context"
-	"errors"
 	"encoding/json"
+	"errors"
 	"fmt"
 	"sort"
 	"sync"
@@ -11,6 +11,7 @@ import (
 
 	"github.com/ava-labs/avalanchego/ids"
 	"github.com/ava-labs/avalanchego/snow/engine/common"
+	"github.com/ava-labs/avalanchego/snow/engine/snowman/block"
 	"github.com/ava-labs/avalanchego/snow/snowtest"
 
 	"github.com/ava-labs/hypersdk/event"
@@ -188,7 +189,7 @@ func c20(r *simk.Run) *simk.Violation {
 			case 0: // propose an external block
 				parent := pick(func(n *c20Node) bool { return n.status != "rejected" && n.status != "failed" })
 				salt++
-				b := NewTBlock(parent.blk.id, parent.blk.Hght+1, parent.blk.Tmstmp+1, salt, c.Bool(0.2))
+				b := NewTBlockCtx(parent.blk.id, parent.blk.Hght+1, parent.blk.Tmstmp+1, salt, c.Bool(0.2), []uint64{0, 0, 0, 5, 7}[c.Intn(5)])
 				if _, ok := nodes[b.id]; ok {
 					continue
 				}
@@ -228,8 +229,60 @@ func c20(r *simk.Run) *simk.Violation {
 				if n == nil {
 					continue
 				}
+				// the engine (snowman++) verifies a block with the P-Chain context of its proposer wrapper;
+				// sometimes with one that does not match the block's own: that must fail before the chain
+				// is asked to execute anything, and the block stays unverified
+				provided := n.blk.GetContext()
+				if c.Bool(0.12) {
+					switch {
+					case provided == nil:
+						provided = &block.Context{PChainHeight: 9}
+					case c.Bool(0.5):
+						provided = nil
+					default:
+						provided = &block.Context{PChainHeight: provided.PChainHeight + 1}
+					}
+					trace = append(trace, fmt.Sprintf("verify-with-wrong-context(s%d inv=%v)", n.blk.Salt, n.blk.Invalid))
+					verifyCalls := func() int {
+						k := 0
+						for _, cl := range chain.calls() {
+							if cl.Kind == "verify" && cl.Blk == n.blk.id {
+								k++
+							}
+						}
+						return k
+					}
+					callsBefore := verifyCalls()
+					rec.mu.Lock()
+					verifiedBefore := len(rec.verified)
+					rec.mu.Unlock()
+					var verr error
+					if provided == nil {
+						verr = n.handle.Verify(ctx)
+					} else {
+						verr = n.handle.VerifyWithContext(ctx, provided)
+					}
+					s.Probe("verify_with_mismatched_context")
+					if verr == nil {
+						fail("mismatched-context-verified", "Verify succeeded although the provided P-Chain context does not match the block's; trace=%v", trace)
+						return
+					}
+					rec.mu.Lock()
+					verifiedAfter := len(rec.verified)
+					rec.mu.Unlock()
+					if verifyCalls() != callsBefore || verifiedAfter != verifiedBefore {
+						fail("chain-executed-block-whose-verify-failed", "Verify returned %v for a P-Chain context mismatch, yet the chain was asked to verify the block (%d VerifyBlock calls for it, %d verified notifications during the call); trace=%v", verr, verifyCalls()-callsBefore, verifiedAfter-verifiedBefore, trace)
+						return
+					}
+					continue // still only parsed; the engine may verify it again with the right context
+				}
 				trace = append(trace, fmt.Sprintf("verify(s%d inv=%v)", n.blk.Salt, n.blk.Invalid))
-				err := n.handle.Verify(ctx)
+				var err error
+				if provided == nil {
+					err = n.handle.Verify(ctx)
+				} else {
+					err = n.handle.VerifyWithContext(ctx, provided)
+				}
 				if n.blk.Invalid {
 					if err == nil {
 						fail("invalid-block-verified", "Verify succeeded for a block the chain rejects; trace=%v", trace)
